@@ -711,6 +711,13 @@ class OpsMixin:
         def model_fn(new_id):
             if any(src.m.tok_of_name(n) is None for n in new.m.names()):
                 raise Expect(("ValueError",), "transfer_missing")
+            T = self.model.toks
+            for n in new.m.names():
+                ka, kb = T[new.m.tok_of_name(n)].kind, T[src.m.tok_of_name(n)].kind
+                if (ka == "str") != (kb == "str"):
+                    # the data table is meant to be a materialisation of the reference source: a
+                    # column of another type under the same name is outside the documented use
+                    raise Skip("transfer onto a table whose same-named column has another type")
             if any(new.m.name_of_tok(t) is None for t in new.m.grouping):
                 # grouped by a hidden column: outside the defined domain (DESIGN.md 12.3) - the
                 # reference source cannot name that column, so the grouping of the result is not specified
